@@ -197,6 +197,10 @@ MANIFEST = dict(
     'equivariance for ALL positive gains/power/noise/energy on that path; '
     'optimality then follows from KKT (trusted).',
     note='floats modelled as exact reals; N bounded; KKT theorem trusted; '
-    'np.zeros/float() facade',
+    'np.zeros/float() facade'
+    ' Concrete data-representation / scale / boundary probes of the real'
+    ' code (dtype, container and memory-layout variants, argument'
+    ' immutability, magnitudes) accompany the symbolic runs; they are'
+    ' differential runs, not solver verdicts.',
     technique='symbolic execution of real code on numpy object arrays + z3 '
     'QF_NRA per path; counterexample replay')
